@@ -119,7 +119,7 @@ def run(c, facts, tier):
     else:
         ok = False
     mp = [a for m, a, _ in chain if m == "map"]
-    ok = ok and mp and rx.path_str(mp[0][0]) == "Permission::value"
+    ok = ok and mp and (rx.path_str(mp[0][0]) or "").split("::")[-1] == vf.name
     c.ob("C08.who-perm", fs.key, "a who/perm string is the OR of its letters", ok, "from_symbolic_str = %s" % ms)
     # ---------------------------------------------------------------- clause algebra
     pp = facts.fn("<PartialPermission as Parseable>::parse")
